@@ -1064,6 +1064,44 @@ impl<'t> Gen<'t> {
                 }
             }
         }
+        if self.cfg.fk_to_null && self.cfg.fk_chains && self.cfg.w_kinds[6] > 0 && self.t.chance(1, 5) {
+            self.add_back_reference_pair(p);
+        }
+    }
+
+    /// a pair of keys whose reference runs in opposite directions in two locales: everywhere `dst` is
+    /// `$t(src) ..` and `src` is plain, except in one non-default locale where `src` is `.. $t(dst)` and
+    /// `dst` an explicit default. Resolving `src` there leaves the locale through the null (to the locale
+    /// it inherits from or the default) and meets the key path `src` again, in another locale: acyclic.
+    pub fn add_back_reference_pair(&mut self, p: &mut Project) {
+        if p.locales.len() < 2 {
+            return;
+        }
+        let ns_list = p.ns_list();
+        let ns = ns_list[self.t.pick(ns_list.len())].clone();
+        let (src, dst) = if self.t.coin() { ("backsrc", "backdst") } else { ("zbacksrc", "abackdst") };
+        let turned = p.locales[1 + self.t.pick(p.locales.len() - 1)].clone();
+        let with_var = self.t.coin();
+        let fk = |path: &str| Piece::Fk(Fk { ns: ns.clone(), path: vec![path.to_string()], args: vec![], ws: Default::default() });
+        for loc in p.locales.clone() {
+            let tag_s = format!("{loc}:{src}");
+            let tag_d = format!("{loc}:{dst}");
+            let (vs, vd) = if loc == turned {
+                (Value::Str(Self::finish_pieces(vec![Piece::Text(self.text(&tag_s)), fk(dst)])), Value::Null)
+            } else {
+                let mut sp = vec![Piece::Text(self.text(&tag_s))];
+                if with_var {
+                    sp.push(self.var_piece("who"));
+                }
+                (Value::Str(Self::finish_pieces(sp)), Value::Str(Self::finish_pieces(vec![fk(src), Piece::Text(self.text(&tag_d))])))
+            };
+            if let Some(o) = p.files.get_mut(&(ns.clone(), loc.clone())) {
+                let pos = self.t.pick(o.len() + 1);
+                o.insert(pos, (src.to_string(), vs));
+                let pos = self.t.pick(o.len() + 1);
+                o.insert(pos, (dst.to_string(), vd));
+            }
+        }
     }
 
     /// a reference to `target` (value in the same locale) with arguments for some of its variables
@@ -1324,6 +1362,21 @@ pub fn c06_project_for_map(map: [usize; 3]) -> Project {
                 obj.push((rn, Value::Null));
             } else {
                 obj.push((rn, Value::Str(vec![t(&format!("rn@{loc}:")), fk(&[&k0], vec![])])));
+            }
+        }
+        // references that run in opposite directions in two locales: for each non-default locale T, `bd<T>` is
+        // `$t(bs<T>) ..` and `bs<T>` plain everywhere, except in T where `bs<T>` is `.. $t(bd<T>)` and `bd<T>` is null.
+        // Resolving `bs<T>` in T leaves T through the null (to the locale it inherits from, or the default) and
+        // meets the key path `bs<T>` again, in another locale; `de` is loaded before every locale it can fall back to.
+        for turned in &C03_LOCALES[1..] {
+            let bs = format!("bs{turned}");
+            let bd = format!("bd{turned}");
+            if loc == turned {
+                obj.push((bs.clone(), Value::Str(vec![t(&format!("bs@{loc} ")), fk(&[&bd], vec![])])));
+                obj.push((bd, Value::Null));
+            } else {
+                obj.push((bs.clone(), Value::Str(vec![t(&format!("bs@{loc}"))])));
+                obj.push((bd, Value::Str(vec![fk(&[&bs], vec![]), t(&format!(" bd@{loc}"))])));
             }
         }
     }
